@@ -31,9 +31,7 @@ def append(val: str, arg: object) -> str:
 
     If _arg_ is not a string, it will be converted to one before concatenation.
     """
-    if not isinstance(arg, str):
-        arg = str(arg)
-    return val + arg
+    return val + to_liquid_string(arg)
 
 
 @string_filter
@@ -271,7 +269,7 @@ def truncate(val: str, num: Any = 50, end: str = "...") -> str:
             token=None,
         ) from err
 
-    end = str(end)
+    end = to_liquid_string(end)
     return truncate_chars(val, num, end)
 
 
@@ -295,7 +293,7 @@ def truncatewords(val: str, num: Any = 15, end: str = "...") -> str:
             token=None,
         ) from err
 
-    end = str(end)
+    end = to_liquid_string(end)
 
     # Force a minimum `num` of 1.
     if num <= 0:
